@@ -319,6 +319,7 @@ c = S.ext("inspect.isroutine", cite="inspect.isroutine(obj): functions, methods,
 c.param("obj", T.Obj).returns(T.Bool).modifies()
 c = S.ext("Future", cite="Future(): a new pending future")
 c.returns(T.Ref("Future"), fresh=True).modifies()
+c.ensures("pending", "not G.fut_running[result] and G.fut_n_exc[result] == 0 and G.fut_n_res[result] == 0")
 S.classes["Future"].module = "loky._base"
 S.classes["Future"].src_name = "Future"
 S.src_class[("loky._base", "Future")] = "Future"
